@@ -10,6 +10,21 @@ from snaxc.dialects import snax
 from snaxc.util.dispatching_rules import dispatch_to_compute, dispatch_to_dm
 
 
+def is_reached_through(barrier: Operation, op: Operation) -> bool:
+    """
+    Every execution that reaches `op` after the point of `barrier` passes through `barrier`:
+    `op` lives in the block of the barrier (or nested inside one of the operations of that block).
+    A barrier inside a conditionally executed region does not synchronise what comes after the region.
+    """
+    block = barrier.parent_block()
+    parent: Operation | None = op
+    while parent is not None:
+        if parent.parent_block() is block:
+            return True
+        parent = parent.parent_op()
+    return False
+
+
 class InsertSyncBarrier(ModulePass):
     """This pass inserts  snax synchronisation barriers in a program.
     Synchronisation barriers are required when data is shared between
@@ -32,12 +47,12 @@ class InsertSyncBarrier(ModulePass):
                 sync_op = snax.ClusterSyncOp()
                 rewriter.insert_op(sync_op, InsertPoint.before(op_in_module))
 
-                # clear the list
-                ops_to_sync = []
+                # only operations that are reached through this barrier are synchronised now
+                ops_to_sync = [o for o in ops_to_sync if not is_reached_through(sync_op, o)]
 
             if isinstance(op_in_module, snax.ClusterSyncOp):
-                # synchronisation ok, clear list
-                ops_to_sync: list[Operation] = []
+                # synchronisation ok for everything that is reached through this barrier
+                ops_to_sync: list[Operation] = [o for o in ops_to_sync if not is_reached_through(op_in_module, o)]
 
             # check all operands of current op
             for operand in [*op_in_module.operands, *op_in_module.results]:
